@@ -188,6 +188,10 @@ class _Linalg:
             for k in range(j, n):
                 d = sum(V[i, j] * V[i, k] for i in range(n))
                 E.defs.append(toz(d) == (1 if k == j else 0))
+        for i in range(n):
+            for k in range(i, n):
+                d = sum(V[i, j] * V[k, j] for j in range(n))
+                E.defs.append(toz(d) == (1 if k == i else 0))
         for h in E.hooks.get('eig', []):
             h(K, lam, V)
         return lam, V
@@ -613,17 +617,25 @@ def abs_var(yz):
     return a
 
 
-def _proved_equal(pairs, timeout_ms=1500):
-    """True when the path hypotheses prove x == y for every pair (short budget; False = not known)"""
+def _proved_equal(pairs, timeout_ms=3000):
+    """True when the path hypotheses prove x == y for every pair (False = not known).  z3 first; when z3 neither proves
+    nor refutes within its budget, the ideal-membership certificate is tried (it is insensitive to solver heuristics)"""
     goal = z3.And(*[toz(x) == toz(y) for x, y in pairs])
-    goal = z3.simplify(goal)
-    if z3.is_true(goal):
+    gs = z3.simplify(goal)
+    if z3.is_true(gs):
         return True
-    if z3.is_false(goal):
+    if z3.is_false(gs):
         return False
-    v, m, t = core.z3_check(E.hyps(), z3.Not(goal), timeout_ms)
+    hy = E.hyps()
+    v, m, t = core.z3_check(hy, z3.Not(goal), timeout_ms)
     E.stats['eq_lifts'] = E.stats.get('eq_lifts', 0) + 1
-    return v == 'unsat'
+    if v == 'unsat':
+        return True
+    if v == 'sat':
+        return False
+    from . import cas
+    ok, info = cas.cert_prove(hy, goal, budget_s=12.0)
+    return bool(ok)
 
 
 def _asfloat_ifnum(x):
